@@ -205,6 +205,14 @@ class Norm:
         for s in "AB":
             if self.itsn[s] is None:
                 self.itsn[s] = 0
+        # channels with several concurrent sender tasks on one side: the submission order of such a
+        # channel is the order in which send_data_raw serialises the calls (enqueue hook, emitted while the
+        # channel's send lock is held), not the order in which the tasks announced their calls
+        tasks = {}
+        for m in spec["msgs"]:
+            tasks.setdefault((m["from"], m["sid"]), set()).add((m.get("task", 0), m.get("phase", 1)))
+        self.multi = {k for k, v in tasks.items() if len({t for t, _ in v}) > 1}
+        self.pending_sub = {}
 
     def ch(self, sid):
         return self.sids.index(sid) + 1 if sid in self.sids else 0
@@ -250,8 +258,12 @@ class Norm:
                 if ev == "reset":
                     out.append({"e": "reset", "i": i, "sc": self.idx, "chans": self.chans()})
                 elif ev == "submit":
-                    out.append({"e": "submit", "i": i, "s": s, "ch": self.ch(e["sid"]), "mid": e["mid"],
-                                "len": e["len"], "h": e["h"] & 0x7FFFFFFF})
+                    rec = {"e": "submit", "i": i, "s": s, "ch": self.ch(e["sid"]), "mid": e["mid"],
+                           "len": e["len"], "h": e["h"] & 0x7FFFFFFF}
+                    if (s, e["sid"]) in self.multi:
+                        self.pending_sub.setdefault((s, e["sid"], e["len"], e["h"]), []).append(rec)
+                    else:
+                        out.append(rec)
                 elif ev == "recv":
                     if e["kind"] == "close" and not closing:
                         closed_reported = True
@@ -311,6 +323,11 @@ class Norm:
                 elif ev in ("open", "close"):
                     out.append({"e": "chan", "i": i, "s": s, "ch": self.ch(e["sid"]), "what": ev, "cause": e["cause"]})
                 elif ev == "enqueue":
+                    q = self.pending_sub.get((s, e["sid"], e["len"], e["h"]))
+                    if q and e["ppid"] != 50:
+                        rec = q.pop(0)
+                        rec["i"] = i
+                        out.append(rec)
                     out.append({"e": "enq", "i": i, "s": s, "ch": self.ch(e["sid"]), "ssn": e["ssn"],
                                 "nfrag": e["nfrag"], "len": e["len"], "ppid": e["ppid"], "ord": bool(e["ordered"])})
                 else:
@@ -355,6 +372,16 @@ def validate(ck, pid, scenarios, by_id, tag, timeout=900):
 
 def fault_sig(sc):
     return sorted(f"{f['dir']}:{f['k']}:{f['kind']}" for f in sc["faults"])
+
+
+def F(d, k, o, kind, ak="NONE", ao=0, t=None, at=None):
+    """a fault record in the shape TLC prints (used for hand-written witnesses only)"""
+    r = {"dir": d, "k": k, "o": o, "kind": kind, "ak": ak, "ao": ao}
+    if t is not None:
+        r["t"] = t
+    if at is not None:
+        r["at"] = at
+    return r
 
 
 def record_results(ck, pid, scenarios, by_id, bad, ext):
